@@ -23,6 +23,15 @@ struct vec_uint {
   unsigned operator[](unsigned i) const { __CPROVER_assert(i < n, "vector index in bounds"); return d[i < 8 ? i : 0]; }
   void push_back(unsigned v) { __CPROVER_assert(n < 8, "stub capacity (vec_uint)"); if (n < 8) { d[n] = v; n = n + 1; } }
 };
+extern "C" void uvd_fill(unsigned *d) { for (unsigned i = 0; i < CAP; i++) d[i] = 0; }
+struct uvec_d {                 /* std::vector<unsigned> */
+  unsigned d[CAP]; unsigned n;
+  uvec_d() { n = 0; }
+  uvec_d(unsigned k) { __CPROVER_assert(k <= CAP, "stub capacity (vector<unsigned>)"); n = k; uvd_fill(d); }
+  unsigned size() const { return n; }
+  unsigned &operator[](unsigned i) { __CPROVER_assert(i < n, "vector index in bounds"); return d[i < CAP ? i : 0]; }
+  void push_back(unsigned v) { __CPROVER_assert(n < CAP, "stub capacity (vector<unsigned>)"); if (n < CAP) { d[n] = v; n = n + 1; } }
+};
 class DenseMatrix;
 void mul_dense_scalar(const DenseMatrix &A, const RCPBasic &k, DenseMatrix &B);
 void transpose_dense(const DenseMatrix &A, DenseMatrix &B);
